@@ -31,7 +31,8 @@ RULE = (
     "Hypothesis draws an initial condition (every quantity written at indices 0..init-1, init in {0,1,2}, of both storages, as the "
     "models do) and a history of 1-25 (thorough: 1-45) operations: write (overwrite at index 0, overwrite at any index up to the "
     "number of stored slots, additive at a stored index, additive at the first empty index; time-step storage, iterate "
-    "storage or both in one call), shift with max_index d in {1,2,3,4,None} (d changes between shifts), read, in-place "
+    "storage or both in one call; dictionary-level writes use float64 arrays or, in 4 of 10 writes, float32 / int64 / int8 arrays - "
+    "the model keeps the value type of each slot and additive writes go to float64 slots only), shift with max_index d in {1,2,3,4,None} (d changes between shifts), read, in-place "
     "mutation of an array previously passed to a write or returned by a read, and calls documented to raise ValueError "
     "(no index, negative index, read with both indices, unknown shift location, negative max_index). Mode 'dict': 1-2 named "
     "quantities (arrays of length 1-4) in a bare dict through pp.set/get/shift_solution_values. Mode 'es': a fractured "
@@ -62,7 +63,7 @@ ASSUMPTIONS = [
     "max_index >= 1 or None; stored values are float numpy arrays of fixed length per quantity",
     "slots at or beyond the depth of a shift are unspecified until overwritten or shifted into again",
 ]
-REQUIRED = {"mode-dict": 0.3, "mode-es": 0.3, "additive": 0.3, "additive-empty": 0.05, "shift-capped": 0.3, "shift-none": 0.1,
+REQUIRED = {"set-dtype-f4": 0.04, "set-dtype-i1": 0.02, "mode-dict": 0.3, "mode-es": 0.3, "additive": 0.3, "additive-empty": 0.05, "shift-capped": 0.3, "shift-none": 0.1,
             "depth-change": 0.2, "write-k>0": 0.15, "set-both": 0.1, "mut-in": 0.1, "mut-out": 0.1, "get": 0.3,
             "unspecified-slot": 0.1, "bad-args": 0.05, "additive-after-shift": 0.2}
 
@@ -87,7 +88,9 @@ def _op(draw, es):
         k = 0 if draw(st.integers(0, 9)) < (5 if not add else 7) else draw(st.integers(1, 5))
         return {"o": "set", "q": q, "loc": draw(st.sampled_from(["t", "i", "t", "i", "b"])), "k": k,
                 "k2": draw(st.integers(0, 5)) if draw(st.booleans()) else k, "add": add,
-                "v": draw(st.integers(0, 1000)) if es else [draw(_val) for _ in range(4)]}
+                "v": draw(st.integers(0, 1000)) if es else [draw(_val) for _ in range(4)],
+                # value type of the written array (dictionary-level histories): mostly float64, sometimes narrower
+                "dt": "f8" if es else draw(st.sampled_from(["f8"] * 6 + ["f4", "f4", "i8", "i1"]))}
     if kind == "shift":
         return {"o": "shift", "q": q, "loc": draw(st.sampled_from(["t", "i"])),
                 "d": draw(st.sampled_from([1, 2, 2, 3, 3, 4, None]))}
@@ -144,9 +147,13 @@ class Hist:
         if add:
             self.slots[k] = self.slots[k] + arr
         elif k == len(self.slots):
-            self.slots.append(np.array(arr, dtype=float))
+            self.slots.append(np.array(arr))  # a copy with the value type of the written array
         else:
-            self.slots[k] = np.array(arr, dtype=float)
+            self.slots[k] = np.array(arr)
+
+    def narrow(self, k):
+        """Slot k holds an array that is not float64 (additive writes onto it are not judged: in-place rounding)."""
+        return k < len(self.slots) and self.slots[k] is not None and self.slots[k].dtype != np.float64
 
     def shift(self, d):
         old = list(self.slots)
@@ -184,8 +191,8 @@ class Held:
         it = self.items[j % len(self.items)]
         if it[0].size == 0:
             return False
-        it[0] += 1.5
-        it[0][0] = -77.0
+        it[0] += (1.5 if it[0].dtype.kind == "f" else 2)  # integer arrays take an integer increment
+        it[0][0] = -77
         it[1] = it[0].copy()
         return True
 
@@ -275,16 +282,29 @@ def run_dict(spec, stats):
             name, n = names[j], sizes[j]
         if o == "set":
             arr = np.array(op["v"][:n], dtype=float)
+            dt = op.get("dt", "f8")
+            if dt == "f4":
+                arr = arr.astype(np.float32)
+            elif dt in ("i8", "i1"):
+                arr = np.clip(np.round(arr), -100, 100).astype(np.int64 if dt == "i8" else np.int8)
+            if dt != "f8":
+                stats.labels.add("set-dtype-" + dt)
             locs = ["i", "t"] if op["loc"] == "b" else [op["loc"]]
             ks = {}
-            add = op["add"]
+            add = op["add"] and dt == "f8"
             if add and len(locs) == 2 and not all(H[(j, l)].specified() for l in locs):
                 add = False
             expect_error = False
             for l, kraw in zip(locs, [op["k"], op["k2"]] if len(locs) == 2 else [op["k"]]):
                 h = H[(j, l)]
                 if add:
-                    cand = h.specified() + ([h.count] if len(locs) == 1 else [])
+                    # (additive writes go to float64 slots only: adding in place to a narrower stored type rounds)
+                    cand = [c for c in h.specified() if not h.narrow(c)] + ([h.count] if len(locs) == 1 else [])
+                    if not cand:
+                        add = False
+                        k = kraw % (h.count + 1)
+                        ks[l] = k
+                        continue
                     k = cand[kraw % len(cand)]
                     expect_error = expect_error or k == h.count
                 else:
